@@ -201,7 +201,10 @@ func TestVerifRootAPI(t *testing.T) {
 				delete(or, k)
 			}
 		}
-		time.Sleep(2500 * time.Millisecond) // two maintenance ticks reclaim them
+		// maintenance ticks (one per second of real time) reclaim them; wait for that, however busy the machine is
+		for i := 0; i < 1500 && c.Len() != len(or); i++ {
+			time.Sleep(20 * time.Millisecond)
+		}
 		views("after the deadlines")
 		c.Close()
 	}
